@@ -12,13 +12,13 @@ static void setVec(std::vector<uint8_t>& v, const uint8_t* src, uint8_t n) {
 }
 
 // the relation R between handler state and recogniser state
-static bool related(DirectProtocolHandler& h, const P& r, bool idleQueues = true) {
+static bool related(DirectProtocolHandler& h, const P& r, bool idleQueues = true, bool anyDevice = false) {
   if (h.m_currentRequest != nullptr || h.m_currentAnswering) return false;
   // passive operation never touches the request queues or the device's arbitration state
   if (idleQueues && (h.m_nextRequests.peek() != nullptr || h.m_finishedRequests.peek() != nullptr)) return false;
   {
     PlainDevice* d = static_cast<PlainDevice*>(h.m_device);
-    if (d->m_arbitrationMaster != SYN || d->m_arbitrationCheck != 0) return false;
+    if (!anyDevice && (d->m_arbitrationMaster != SYN || d->m_arbitrationCheck != 0)) return false;
   }
   size_t cl = h.m_command.size(), rl = h.m_response.size();
   bool cmdEq = cl == r.mlen, resEq = rl == r.slen;
@@ -69,6 +69,113 @@ static bool refInv(const P& r) {
     case P::RESACK: return full && notBc && !ref::is_master(r.m[1]) && r.slen >= 1 && r.slen == 1 + r.s[0] && r.slen <= CAP && (r.crcOk || !r.resRepeat);
   }
   return false;
+}
+
+typedef ref::Sender S;
+
+// ---- request objects with ghost bookkeeping kept outside the object (it may be deleted) ----
+#define MAXREQ 3
+struct SlaveBuf { uint8_t b[CAP]; };
+static uint8_t g_notifyCount[MAXREQ], g_deleted[MAXREQ], g_slaveLen[MAXREQ];
+static SlaveBuf g_slave[MAXREQ];
+static int g_notifyResult[MAXREQ];
+static bool g_restart[MAXREQ];
+class RecRequest : public BusRequest {
+ public:
+  RecRequest(uint8_t id, bool del) : BusRequest(m_own, del), m_id(id) {}
+  ~RecRequest() override { g_deleted[m_id]++; }
+  bool notify(result_t result, const SlaveSymbolString& slave) override {
+    g_notifyCount[m_id]++;
+    g_notifyResult[m_id] = result;
+    size_t n = slave.size();
+    g_slaveLen[m_id] = static_cast<uint8_t>(n < 255 ? n : 255);
+    // the harness reserves CAP+2 bytes for every SlaveSymbolString it hands to the handler: one fixed-size block copy
+    g_slave[m_id] = *reinterpret_cast<const SlaveBuf*>(slave.data());
+    return g_restart[m_id];
+  }
+  MasterSymbolString m_own;
+  uint8_t m_id;
+};
+
+static unsigned countIn(Queue<BusRequest*>& q, BusRequest* r) {
+  unsigned n = 0, k = 0;
+  for (auto it = q.m_queue.begin(); it != q.m_queue.end() && k < MAXREQ + 1; ++it, ++k) if (*it == r) n++;
+  return n;
+}
+
+static bool escOK(DirectProtocolHandler& h, bool esc, uint8_t u) {
+  return esc ? (h.m_escape == u && (u == 0xA9 || u == 0xAA)) : h.m_escape == 0;
+}
+
+// request content is the monitor's M
+static bool reqIsM(BusRequest* q, const S& r) {
+  const MasterSymbolString& m = q->getMaster();
+  size_t total = 5u + r.M[4];
+  if (m.size() != total) return false;
+  bool eq = true;
+  for (int i = 0; i < CAP; i++) if (static_cast<size_t>(i) < total && m.data()[i] != r.M[i]) eq = false;
+  return eq;
+}
+
+// RA: relation between a handler with an own exchange in progress and the sender monitor
+static bool relatedActive(DirectProtocolHandler& h, const S& r, BusRequest* req) {
+  const P& p = r.p;
+  PlainDevice* d = static_cast<PlainDevice*>(h.m_device);
+  if (h.m_currentAnswering) return false;
+  if (h.m_config.readOnly) return false;   // addRequest refuses requests in read-only mode
+  size_t cl = h.m_command.size(), rl = h.m_response.size();
+  if (cl != 0) return false;               // the command buffer is not used while sending an own request
+  if (r.arb) {
+    return h.m_state == bs_ready && h.m_currentRequest == nullptr && h.m_nextRequests.peek() == req
+      && d->m_arbitrationMaster == r.M[0] && d->m_arbitrationCheck == 1
+      && p.ph == P::QQ && !p.cmdRepeat && !p.esc && p.crc == 0 && h.m_crc == 0 && h.m_escape == 0 && rl == 0;
+  }
+  if (d->m_arbitrationMaster != SYN || d->m_arbitrationCheck != 0) return false;
+  if (r.endSyn) return h.m_state == bs_sendSyn && h.m_currentRequest == nullptr && p.ph == P::IDLE;
+  if (!r.own) return false;
+  if (h.m_currentRequest != req) return false;
+  bool pre = true, resEq = rl == p.slen;
+  for (int i = 0; i < CAP; i++) {
+    if (i < static_cast<int>(p.mlen) && p.m[i] != r.M[i]) pre = false;
+    if (i < static_cast<int>(p.slen) && i < static_cast<int>(rl) && h.m_response.data()[i] != p.s[i]) resEq = false;
+  }
+  if (!pre) return false;
+  bool escEq = (h.m_escape == ESC) == p.esc && (h.m_escape == 0 || h.m_escape == ESC);
+  if (p.ph >= P::QQ && p.ph <= P::CMDACK && rl != 0) return false;
+  switch (p.ph) {
+    case P::QQ:
+      return p.cmdRepeat && h.m_state == bs_sendCmd && h.m_nextSendPos == 0 && h.m_repeat && h.m_crc == p.crc && escOK(h, p.esc, r.M[0]);
+    case P::ZZ: case P::PB: case P::SB: case P::NN: case P::DATA:
+      return h.m_state == bs_sendCmd && h.m_nextSendPos == p.mlen && h.m_repeat == p.cmdRepeat && h.m_crc == p.crc
+        && escOK(h, p.esc, r.M[p.mlen < CAP ? p.mlen : 0]);
+    case P::CRC:
+      return h.m_state == bs_sendCmdCrc && h.m_crc == p.crc && h.m_repeat == p.cmdRepeat && escOK(h, p.esc, p.crc);
+    case P::CMDACK:
+      return h.m_state == bs_recvCmdAck && h.m_crcValid && p.crcOk && h.m_repeat == p.cmdRepeat && escEq;
+    case P::RNN: case P::RDATA:
+      return h.m_state == bs_recvRes && resEq && h.m_crc == p.crc && h.m_repeat == p.resRepeat && escEq;
+    case P::RCRC:
+      return h.m_state == bs_recvResCrc && resEq && h.m_crc == p.crc && h.m_repeat == p.resRepeat && escEq;
+    case P::RESACK:
+      return h.m_state == bs_sendResAck && resEq && h.m_crcValid == p.crcOk && h.m_repeat == p.resRepeat && h.m_escape == 0 && !p.esc;
+    default: return false;
+  }
+}
+
+// states of the monitor that an exchange can produce
+static bool senderInv(const S& r) {
+  const P& p = r.p;
+  if ((r.arb ? 1 : 0) + (r.own ? 1 : 0) + (r.endSyn ? 1 : 0) != 1) return false;
+  // well-formed request: complete master part of a master address to a valid other address, NN within the bound
+  if (!(ref::is_master(r.M[0]) && ref::valid_addr(r.M[1]) && r.M[1] != r.M[0] && r.M[4] <= NNMAX)) return false;
+  if (!refInv(p)) return false;
+  if (r.endSyn) return p.ph == P::IDLE;
+  if (r.arb) return p.ph == P::QQ && !p.cmdRepeat && !p.esc && p.crc == 0;
+  if (p.ph == P::IDLE) return false;
+  if (p.ph == P::QQ && !p.cmdRepeat) return false;
+  if (p.ph == P::CMDACK && !p.crcOk) return false;
+  // the escape flag during own sending is only set when the symbol being sent needs escaping
+  return true;
 }
 
 #endif
